@@ -178,7 +178,8 @@ def run(tier, seed):
     res.disagreements_checked = res.traces
     res.trusted += ['hand-written generic-scalar model FF.Spectral.synth evaluated at Float and compared with the implementation at 1e-9, phases scripted '
                     'through np.random.randn', 'scipy.signal.periodogram / welch are external: ffpack forwards to them unchanged (checked), their '
-                    'output is checked against the energy identities on the tested series; the theorems are about the mathematical objects']
+                    'output is checked against the energy identities on the tested series; the theorems are about the mathematical objects',
+                    'the Welch estimate of Proofs/C17Welch.lean (segments, mean removal, periodic Hann window, density scaling, averaging) is written out in numpy and compared with welchSpectrum at 1e-9 on every tested series']
     return core.finish(res)
 
 
